@@ -21,6 +21,9 @@
                                            -> ok <answer>…           n:<k> / Sequence:<letters> / str:<letters> / true|false / err!
     merge <own> <other>                   dict literal: <nkeys> (key <nvals> v…)…      `_merge_qualifiers` as coded (copies the sets)
                                            -> ok <result dict> <own dict after>
+    export <own> <other> <n> (key val){n} `CDSInterval.export_qualifiers(parent_qualifiers=other)`; key 100 = protein_id,
+                                           101 = product; (key val) = the identifiers the exporter adds (`.add()` loop)
+                                           -> ok <result dict> <own dict after> <other dict after>
 -/
 import BioCantor.Driver.Proto
 import BioCantor.Model.Cache
@@ -157,6 +160,13 @@ def ops : List (String × Op) := [
       let own ← pQDict; let other ← pQDict
       let h0 := alloc [] own
       let r := if mergeCopiesSetsAsCoded then mergeDeep h0.1 h0.2 other else mergeShallow h0.1 h0.2 other
-      pure s!"ok {showQDict (deref r.1 r.2)} {showQDict (deref r.1 h0.2)}")
+      pure s!"ok {showQDict (deref r.1 r.2)} {showQDict (deref r.1 h0.2)}"),
+  ("export", do
+      -- own qualifiers and the `parent_qualifiers` ARGUMENT both live on the heap; identifiers in the order of the code
+      let own ← pQDict; let other ← pQDict; let ids ← pList pNatPair
+      let o := alloc [] own
+      let p := alloc o.1 other
+      let r := exportQualifiers p.1 o.2 p.2 ids
+      pure s!"ok {showQDict (deref r.1 r.2)} {showQDict (deref r.1 o.2)} {showQDict (deref r.1 p.2)}")
 ]
 end BioCantor.Driver.Cache
